@@ -11,6 +11,7 @@ Open Scope Z_scope.
 #[local] Hint Constructors Forall2 : core.
 
 Section Rel.
+  Variable it : bool.   (* are the iterate calls (OIter) part of the relation? *)
   Variable E : name -> name -> Prop.
 
   Inductive arg_rel : arg -> arg -> Prop :=
@@ -30,22 +31,24 @@ Section Rel.
     | _, _ => False
     end.
 
-  (* OIter (counting names / rdatasets of the private state) is outside the simulation *)
-  Inductive op_rel : op -> op -> Prop :=
-  | OR_add a b : Forall2 arg_rel a b -> op_rel (OAdd a) (OAdd b)
-  | OR_replace a b : Forall2 arg_rel a b -> op_rel (OReplace a) (OReplace b)
-  | OR_delete a b : Forall2 arg_rel a b -> op_rel (ODelete a) (ODelete b)
-  | OR_delete_exact a b : Forall2 arg_rel a b -> op_rel (ODeleteExact a) (ODeleteExact b)
-  | OR_serial v r a b : oarg_rel a b -> op_rel (OSerial v r a) (OSerial v r b)
-  | OR_get a b ty cov : arg_rel a b -> op_rel (OGet a ty cov) (OGet b ty cov)
-  | OR_exists a b : arg_rel a b -> op_rel (OExists a) (OExists b)
-  | OR_changed : op_rel OChanged OChanged
-  | OR_getnode a b : arg_rel a b -> op_rel (OGetNode a) (OGetNode b)
-  | OR_commit : op_rel OCommit OCommit
-  | OR_rollback : op_rel ORollback ORollback.
+  (* OIter (counting names / rdatasets of the private state) is related only when `it` is set: it needs
+     a store relation strong enough to count (Proofs/TxnCount.v) *)
+  Inductive op_rel_it : op -> op -> Prop :=
+  | OR_add a b : Forall2 arg_rel a b -> op_rel_it (OAdd a) (OAdd b)
+  | OR_replace a b : Forall2 arg_rel a b -> op_rel_it (OReplace a) (OReplace b)
+  | OR_delete a b : Forall2 arg_rel a b -> op_rel_it (ODelete a) (ODelete b)
+  | OR_delete_exact a b : Forall2 arg_rel a b -> op_rel_it (ODeleteExact a) (ODeleteExact b)
+  | OR_serial v r a b : oarg_rel a b -> op_rel_it (OSerial v r a) (OSerial v r b)
+  | OR_get a b ty cov : arg_rel a b -> op_rel_it (OGet a ty cov) (OGet b ty cov)
+  | OR_exists a b : arg_rel a b -> op_rel_it (OExists a) (OExists b)
+  | OR_changed : op_rel_it OChanged OChanged
+  | OR_getnode a b : arg_rel a b -> op_rel_it (OGetNode a) (OGetNode b)
+  | OR_commit : op_rel_it OCommit OCommit
+  | OR_rollback : op_rel_it ORollback ORollback
+  | OR_iter : it = true -> op_rel_it OIter OIter.
 
-  Definition spec_rel (x y : txnspec) : Prop :=
-    x_mode x = x_mode y /\ x_style x = x_style y /\ x_fault x = x_fault y /\ Forall2 op_rel (x_ops x) (x_ops y).
+  Definition spec_rel_it (x y : txnspec) : Prop :=
+    x_mode x = x_mode y /\ x_style x = x_style y /\ x_fault x = x_fault y /\ Forall2 op_rel_it (x_ops x) (x_ops y).
 
   Definition parsed_rel (x y : option rds * list arg) : Prop := fst x = fst y /\ Forall2 arg_rel (snd x) (snd y).
 
@@ -95,6 +98,9 @@ Section Rel.
   Qed.
 End Rel.
 
+Notation op_rel := (op_rel_it false).
+Notation spec_rel := (spec_rel_it false).
+
 Section Sim.
   Context {P1 S1 P2 S2 : Type}.
   Variable st1 : store P1 S1.
@@ -103,6 +109,7 @@ Section Sim.
   Variable E : name -> name -> Prop.
   Variable RS : S1 -> S2 -> Prop.
   Variable RP : P1 -> P2 -> Prop.
+  Variable it : bool.
 
   Hypothesis H_empty : E NameM.empty NameM.empty.
   Hypothesis H_origin : forall n1 n2, E n1 n2 -> origin_ok c1 n1 = origin_ok c2 n2.
@@ -120,6 +127,7 @@ Section Sim.
   Hypothesis H_exists : forall s1 s2 n1 n2, RS s1 s2 -> E n1 n2 -> s_exists st1 s1 n1 = s_exists st2 s2 n2.
   Hypothesis H_node : forall s1 s2 n1 n2, RS s1 s2 -> E n1 n2 -> s_node st1 s1 n1 = s_node st2 s2 n2.
   Hypothesis H_changed : forall s1 s2, RS s1 s2 -> s_changed st1 s1 = s_changed st2 s2.
+  Hypothesis H_count : it = true -> forall s1 s2, RS s1 s2 -> s_count st1 s1 = s_count st2 s2.
 
   Notation arel := (arg_rel E).
 
@@ -291,7 +299,7 @@ Section Sim.
     fst (fst x) = fst (fst y) /\ RP (snd (fst x)) (snd (fst y)) /\ RT (snd x) (snd y).
 
   Lemma sim_step o1 o2 z1 z2 t1 t2 :
-    op_rel E o1 o2 -> RP z1 z2 -> RT t1 t2 -> res_rel RStep (step st1 c1 o1 z1 t1) (step st2 c2 o2 z2 t2).
+    op_rel_it it E o1 o2 -> RP z1 z2 -> RT t1 t2 -> res_rel RStep (step st1 c1 o1 z1 t1) (step st2 c2 o2 z2 t2).
   Proof.
     intros Vo HP HT. pose proof HT as (HR & Hro & Hen).
     assert (forall (x : res (txn (S:=S1))) (y : res (txn (S:=S2))), res_rel RT x y ->
@@ -328,6 +336,8 @@ Section Sim.
       destruct (s_node st2 (t_st t2) n2); cbn [bind]; try reflexivity. unfold RStep. cbn. auto.
     - apply Ke.
     - apply Ke.
+    - rewrite Hen, (H_count H _ _ HR). destruct (t_ended t2); [reflexivity|].
+      destruct (s_count st2 (t_st t2)). unfold RStep. cbn. auto.
   Qed.
 
   Lemma sim_exit clean z1 z2 t1 t2 :
@@ -341,7 +351,7 @@ Section Sim.
   Definition ROut (x : list (res out) * P1) (y : list (res out) * P2) : Prop :=
     fst x = fst y /\ RP (snd x) (snd y).
 
-  Lemma sim_run_manual ops1 ops2 : Forall2 (op_rel E) ops1 ops2 -> forall z1 z2 t1 t2,
+  Lemma sim_run_manual ops1 ops2 : Forall2 (op_rel_it it E) ops1 ops2 -> forall z1 z2 t1 t2,
     RP z1 z2 -> RT t1 t2 ->
     ROut (run_manual st1 c1 ops1 z1 t1) (run_manual st2 c2 ops2 z2 t2).
   Proof.
@@ -362,7 +372,7 @@ Section Sim.
         cbn in *. split; cbn; [congruence|exact I2].
   Qed.
 
-  Lemma sim_run_with ops1 ops2 : Forall2 (op_rel E) ops1 ops2 -> forall fault z1 z2 t1 t2,
+  Lemma sim_run_with ops1 ops2 : Forall2 (op_rel_it it E) ops1 ops2 -> forall fault z1 z2 t1 t2,
     RP z1 z2 -> RT t1 t2 ->
     ROut (run_with st1 c1 ops1 fault z1 t1) (run_with st2 c2 ops2 fault z2 t2).
   Proof.
@@ -396,14 +406,14 @@ Section Sim.
   Qed.
 
   Lemma sim_run_txn x y z1 z2 :
-    spec_rel E x y -> RP z1 z2 -> ROut (run_txn st1 c1 x z1) (run_txn st2 c2 y z2).
+    spec_rel_it it E x y -> RP z1 z2 -> ROut (run_txn st1 c1 x z1) (run_txn st2 c2 y z2).
   Proof.
     intros (Hm & Hs & Hf & Ho) HP. unfold run_txn. rewrite Hm, Hs, Hf. destruct (x_style y =? 1).
     - apply sim_run_with; auto. apply sim_open; auto.
     - apply sim_run_manual; auto. apply sim_open; auto.
   Qed.
 
-  Theorem sim_run_hist h1 h2 : Forall2 (spec_rel E) h1 h2 -> forall z1 z2,
+  Theorem sim_run_hist h1 h2 : Forall2 (spec_rel_it it E) h1 h2 -> forall z1 z2,
     RP z1 z2 ->
     Forall2 ROut (run_hist st1 c1 h1 z1) (run_hist st2 c2 h2 z2).
   Proof.
